@@ -67,6 +67,9 @@ pub struct Case {
 	/// before callback `vanish` if set
 	pub clock_speed: f64,
 	pub vanish: Option<usize>,
+	/// the sound's own start time (None: immediate)
+	#[serde(default)]
+	pub start: Option<At>,
 }
 
 fn gen_tw(rng: &mut Rng, unit: f64) -> Tw {
@@ -152,6 +155,11 @@ fn gen_case(seed: u64, tier: Tier, systematic: Option<u64>) -> Case {
 		cmds,
 		clock_speed: *rng.pick(&[20.0, 50.0, 100.0]),
 		vanish: if rng.chance(0.25) { Some(rng.usize_below(n_chunks)) } else { None },
+		start: match rng.below(10) {
+			0 | 1 => Some(At::Delayed(rng.frange(0.0, 12.0 * unit))),
+			2 => Some(At::Clock(rng.below(5))),
+			_ => None,
+		},
 	}
 }
 
@@ -206,6 +214,12 @@ struct Model {
 	/// seconds of source audio left before the natural end (None = loops forever)
 	audio_left: Option<f64>,
 	rate: f64,
+	/// the sound's own start time has not been reached yet (no audio, no consumption;
+	/// the life cycle itself runs on regardless)
+	start_wait: Option<Wait>,
+	start_clock_hit: bool,
+	/// Stopped because the clock of its start time disappeared
+	never_started: bool,
 }
 
 impl Model {
@@ -239,6 +253,36 @@ impl Model {
 		let early = self.bias > 0.0;
 		// a step whose remaining time is within the bias window may be taken
 		let due = |left: f64, bias: f64| -> bool { left - bias <= 1e-12 };
+		match self.start_wait {
+			Some(Wait::Time(d)) => {
+				self.start_wait = if due(d - secs, self.bias) { None } else { Some(Wait::Time(d - secs)) };
+			}
+			Some(Wait::Clock(target)) => match clock {
+				// a sound waiting for a clock that no longer exists will never start: Stopped
+				None => {
+					if self.start_clock_hit {
+						// (it did start, at the callback at which the clock got there)
+					} else {
+						self.m = M::Stopped;
+						self.never_started = true;
+					}
+					self.start_wait = None;
+				}
+				Some(ticks) => {
+					if early {
+						if ticks + 1e-9 >= target as f64 {
+							self.start_wait = None;
+						}
+					} else if self.start_clock_hit {
+						// (late: one callback after the clock got there)
+						self.start_wait = None;
+					} else if ticks >= target as f64 {
+						self.start_clock_hit = true;
+					}
+				}
+			},
+			None => {}
+		}
 		let mut budget = secs;
 		for _ in 0..4 {
 			match self.m {
@@ -337,7 +381,22 @@ pub fn run_case(case: &Case) -> CaseResult {
 	let mut trace = Hasher64::new();
 	let mut beh = Hasher64::new();
 	let sim = Sim::new(case.seed);
-	let r = NoResolver;
+	// (clock ids of MockInfoBuilder are positional: the first clock of every builder has this id)
+	struct OneClock(kira::clock::ClockId);
+	impl Resolver for OneClock {
+		fn clock_time(&self, _: usize, ticks: u64, fraction: f64) -> Option<kira::clock::ClockTime> {
+			Some(kira::clock::ClockTime {
+				clock: self.0,
+				ticks,
+				fraction,
+			})
+		}
+		fn modulator_id(&self, _: usize) -> Option<kira::modulator::ModulatorId> {
+			None
+		}
+	}
+	let r = OneClock(MockInfoBuilder::new().add_clock(true, 0, 0.0));
+	let _ = NoResolver;
 	let sr = case.sample_rate;
 	let dc = 0.5f32;
 	let data = match case.finite_len {
@@ -362,6 +421,15 @@ pub fn run_case(case: &Case) -> CaseResult {
 			None
 		},
 		rate: Val::Fixed(Rate(case.rate)),
+		start: match case.start {
+			None => StartSpec::Immediate,
+			Some(At::Delayed(d)) => StartSpec::Delayed(d),
+			Some(At::Clock(c)) => StartSpec::Clock {
+				clock: 0,
+				ticks: c,
+				fraction: 0.0,
+			},
+		},
 		..Default::default()
 	};
 	enum H {
@@ -404,6 +472,12 @@ pub fn run_case(case: &Case) -> CaseResult {
 		bias,
 		audio_left: len_secs,
 		rate: case.rate,
+		start_wait: case.start.map(|a| match a {
+			At::Delayed(d) => Wait::Time(d),
+			At::Clock(c) => Wait::Clock(c),
+		}),
+		start_clock_hit: false,
+		never_started: false,
 	};
 	// "to within one callback": early = one callback (plus the interpolation window) ahead,
 	// late = two callbacks behind
@@ -495,15 +569,21 @@ pub fn run_case(case: &Case) -> CaseResult {
 		}
 		let clock_arg = if clock_exists { Some(clock_ticks) } else { None };
 		let (early_adv, late_adv) = (early.m.advancing(), late.m.advancing());
+		// started for sure before this callback / possibly started by the end of it
+		let surely_started = late.start_wait.is_none();
 		early.advance(secs, clock_arg);
 		late.advance(secs, clock_arg);
+		let maybe_started = early.start_wait.is_none();
+		if !maybe_started {
+			res.hit("callbacks_before_start_time");
+		}
 		if let Some(len) = len_secs {
 			let margin = 5.0 / sr as f64 * case.rate.max(1.0); // the 4-frame interpolation window
 			// the real sound is somewhere between the two models: it may have consumed
 			// audio in this callback if either model was advancing at some point of it,
 			// and it surely has if both were advancing throughout
-			let any_adv = early_adv || late_adv || early.m.advancing() || late.m.advancing();
-			let all_adv = early_adv && late_adv && early.m.advancing() && late.m.advancing();
+			let any_adv = (early_adv || late_adv || early.m.advancing() || late.m.advancing()) && maybe_started;
+			let all_adv = early_adv && late_adv && early.m.advancing() && late.m.advancing() && surely_started;
 			if any_adv {
 				consumed_max += secs * case.rate;
 			}
@@ -585,6 +665,16 @@ pub fn run_case(case: &Case) -> CaseResult {
 		} else {
 			frozen_for = 0;
 		}
+		if !maybe_started {
+			if let Some((k, f)) = out.iter().enumerate().find(|(_, f)| f.left != 0.0 || f.right != 0.0) {
+				res.fail(Violation::new(
+					"silence",
+					"audio-before-start-time",
+					format!("callback {ci} frame {k}: emitted ({}, {}) although the sound's start time {:?} has not been reached", f.left, f.right, case.start),
+				));
+				break;
+			}
+		}
 		if stopped_seen {
 			if out.iter().any(|f| f.left != 0.0 || f.right != 0.0) {
 				res.fail(Violation::new("silence", "audio-after-stopped", format!("callback {ci}: audio emitted after Stopped")));
@@ -601,7 +691,14 @@ pub fn run_case(case: &Case) -> CaseResult {
 				_ => None,
 			};
 		}
-		if case.finite_len.is_none() {
+		if case.finite_len.is_none() && !surely_started {
+			// nothing is heard of the fades before the sound's start time
+			last_gain = None;
+		}
+		if early.never_started || late.never_started {
+			known_fade = None;
+		}
+		if case.finite_len.is_none() && surely_started {
 			if let Some((t0, tw, down)) = known_fade {
 				// the gain follows the fade: between the curve one callback early and one late
 				let slack = max_cb + 2.0 * dt + if tw.delay > 0.0 { max_cb } else { 0.0 };
